@@ -215,6 +215,9 @@ V("C13", "sig-at-index-2", "detect", "signature inserted after the second child"
   (BL, "	children = append(children, ret.Child[0])     // issuer is always first\n	children = append(children, sig)              // next is the signature\n	children = append(children, ret.Child[1:]...) // then all other children",
        "	children = append(children, ret.Child[:2]...)\n	children = append(children, sig)\n	children = append(children, ret.Child[2:]...)"),
   needs="IdP that schema-validates LogoutResponse")
+V("C13", "benign-inplace-insert", "silent", "signature spliced in with append(prefix, append(lit, rest...)...) for the AuthnRequest",
+  ("build_request.go", "	var children []etree.Token\n	children = append(children, ret.Child[0])     // issuer is always first\n	children = append(children, sig)              // next is the signature\n	children = append(children, ret.Child[1:]...) // then all other children\n	ret.Child = children\n\n	return ret, nil\n}\n\n// BuildAuthRequest builds",
+       "	rest := append([]etree.Token{sig}, ret.Child[1:]...)\n	ret.Child = append(ret.Child[:1], rest...)\n\n	return ret, nil\n}\n\n// BuildAuthRequest builds"))
 V("C13", "not-enveloped", "detect", "enveloped flag dropped for LogoutRequest",
   (BR, "func (sp *SAMLServiceProvider) SignLogoutRequest(el *etree.Element) (*etree.Element, error) {\n	ctx := sp.SigningContext()\n\n	sig, err := ctx.ConstructSignature(el, true)", "func (sp *SAMLServiceProvider) SignLogoutRequest(el *etree.Element) (*etree.Element, error) {\n	ctx := sp.SigningContext()\n\n	sig, err := ctx.ConstructSignature(el, false)"))
 V("C13", "algorithm-not-applied", "detect", "configured algorithm applied only on the default-context branch",
